@@ -11,6 +11,7 @@ def run(facts, tier):
     obs, rules = [], []
     for name, f, mn, text in (
         ("tdigest bookkeeping", T.obligations, 20, "NaN rejected first; every accepted value buffered and folded into min/max; total weight = centroids_weight_ + buffer size; merge / compress hand exactly the counted sources to the internal merge with exactly their weight; the internal merge adds the weight once, re-merges own centroids, clears the buffer, keeps min/max monotone and the extreme centroids singletons; rank / quantile guards and clamps at the extremes; CDF / PMF assembly"),
+        ("interpolation direction", T.interpolation_direction, 1, "between two centroids get_quantile moves from the left mean to the right mean as the rank grows (sign of the target weight in the two interpolation weights)"),
         ("size limit", T.size_limit, 1, "a centroid absorbs its neighbour only within the tighter (min) of the size limits at its two ends, so the extreme centroids stay singletons"),
         ("emptiness predicate support", lambda fa: predicates.obligations(fa, ['tdigest']), 2, "is_empty consults centroids and buffer"),
         ("reader dead-reads", lambda fa: [o for o in dead_reads.obligations(fa) if "tdigest" in o["key"]], 10, "every field the t-digest readers take from the image reaches the restored sketch on every accepting path"),
